@@ -92,6 +92,8 @@ def do_replay(path):
         env = _env(hs, repo)
         env["VERIF_REEXEC"] = "1"
         return subprocess.call([PY, "-m", "sim.cli", "--replay", path], cwd=VERIF, env=env)
+    from sim.core import mem_cap
+    mem_cap()
     prop = load_prop(rp["property"])
     out = run_case(prop, rp["case"])
     if rp["clause"] in out.clauses():
